@@ -81,6 +81,12 @@ def audit_solve(ctx, run, k, s):
         ctx.violation("solves-another-problem:" + key, "%s round %d: the optimiser is handed %s = %s, the scenario configures %s - the reported optimum is that of a different "
                       "allocation problem" % (run.iso, k + 1, key, got, want), dict(case, constant=key))
     ctx.count("configured-constants-compared")
+    # "relative to need": the monthly requirement the LP divides by is population x monthly kcals per person / 1e9, the same need its intake caps use
+    C_ = s.opt.consts_for_optimizer
+    need_want = float(C_["POP"]) * float(C_["KCALS_MONTHLY"]) / 1e9
+    if not wire.close(float(C_["BILLION_KCALS_NEEDED"]), need_want, 1e-12, 0.0) or not wire.close(float(C_["KCALS_MONTHLY"]), float(C_["KCALS_DAILY"]) * 30, 1e-12, 0.0):
+        ctx.violation("solves-another-problem:need", "%s round %d: BILLION_KCALS_NEEDED = %r, population x KCALS_MONTHLY / 1e9 = %r (KCALS_MONTHLY %r, KCALS_DAILY %r)" % (
+            run.iso, k + 1, float(C_["BILLION_KCALS_NEEDED"]), need_want, float(C_["KCALS_MONTHLY"]), float(C_["KCALS_DAILY"])), dict(case, constant="BILLION_KCALS_NEEDED"))
     # objective function of the code's model
     if s.objective != {"Objective_To_Optimize": 1} and s.objective != {"Objective_To_Optimize": 1.0}:
         ctx.disagree("C02:objective-function", case, s.objective, {"Objective_To_Optimize": 1})
@@ -170,6 +176,32 @@ def audit_solve(ctx, run, k, s):
                                                                                                       differing_rows=[d[0] for d in diffs[:5]]))
 
 
+SUPPLY_FIELDS = ["nmonths", "addSeaweed", "addOutdoor", "addStored", "addMeat", "addScp", "addCs", "storeBetweenYears", "pop", "kcalsMonthly", "billionKcalsNeeded",
+                 "seaweedKcals", "initialSeaweed", "maxDensity", "minDensity", "harvestLoss", "initialBuiltArea", "wSeaweed", "wStored", "wMeat", "wCrop", "wScp", "wCs",
+                 "storedInitial", "builtArea", "growth", "cropProd", "scp", "cs", "greenhouse", "fish",
+                 "limSwH", "limSwF", "limSwB", "limScpH", "limScpF", "limScpB", "limCsH", "limCsF", "limCsB"]
+
+
+def same_supplies_in_every_round(ctx, run):
+    """"that round's supplies": everything but the feed/biofuel charge, the ceilings, the pinned human consumption and the herds' meat and milk is the same
+    problem data in every round of a run (stock, monthly crops, SCP, sugar, greenhouse, fish, seaweed farm, wastes, limits, population, horizon)"""
+    inps = []
+    for s in run.solves:
+        try:
+            inps.append(lpinst.inp_from_optimizer(s.opt, s.kind))
+        except NotImplementedError:
+            return
+    for k in range(1, len(inps)):
+        for f in SUPPLY_FIELDS:
+            a, b = inps[0][f], inps[k][f]
+            same = (list(a) == list(b)) if isinstance(a, (list, tuple)) else (a == b)
+            if not same:
+                ctx.violation("supplies-differ-between-rounds:" + f, "%s: %s handed to the optimiser differs between the first solve and solve %d of the same run (%s vs %s)" % (
+                    run.iso, f, k + 1, str(a)[:80], str(b)[:80]), {"country": run.iso, "options": run.opts, "field": f, "solve": k + 1})
+                break
+    ctx.count("runs-with-supplies-compared-across-rounds")
+
+
 def explore(ctx, ps):
     for iso, over in ps:
         run = pipeline.run_scenario(iso, pipeline.options(**over))
@@ -178,6 +210,7 @@ def explore(ctx, ps):
             continue
         for k, s in enumerate(run.solves):
             audit_solve(ctx, run, k, s)
+        same_supplies_in_every_round(ctx, run)
         if ctx.quick and ctx.elapsed() > 160:
             ctx.count("quick-budget-reached")
             break
